@@ -62,6 +62,9 @@ type World struct {
 	bindCache       map[string][]*types.Func
 	opBuildsCache   map[string][]buildOutcome
 	opDispatchCache *opDispatch
+	roGlobalCache   map[*ssa.Global]bool
+	nonNilDepth     int
+	originScope     *ssa.Function // originFreeVar: only call sites inside this implementation
 	reachStepCache  map[*ssa.Function]bool
 	initStateCache  *AState
 	axBuildsCache   map[string][]buildOutcome
